@@ -8,7 +8,8 @@ from .common import safe
 ID = 'C14'
 RULE = ('Non-empty lists of 1-8 paths between one node pair generated directly (1-4 hops, times from a 9-value range so '
         'that length, duration and arrival tie; duplicates; any order; paths given as tuples or lists of hop tuples), plus '
-        'exhaustively every multiset of 1-4 paths from a 12-path pool. Oracle: a 10-line brute force (min, then filter): the '
+        'exhaustively every multiset of 1-4 paths from a 12-path pool and every ordered selection of 2-3 of six paths of 300-600 hops; node ids incl. '
+        'objects equal only to themselves. Oracle: a 10-line brute force (min, then filter): the '
         "five criteria as set equalities over hop sequences, every returned path is an input path, each key holds a list, "
         'path_length == hop count and path_duration == last time - first time for every input path. '
         'non-trivial = >= 3 paths with a tie in one criterion and different winners for two criteria.')
